@@ -148,6 +148,13 @@ pub fn shared<T>(v: T) -> Shared<T> {
 
 thread_local! {
     static APP_PAUSES: std::cell::Cell<bool> = const { std::cell::Cell::new(false) };
+    static INLINE_HANDLERS: std::cell::Cell<bool> = const { std::cell::Cell::new(false) };
+}
+
+/// With this on, `server_main` handles every request INSIDE its accept loop (the sequential loop of the examples):
+/// accept() is not polled again - and nothing else drives the connection - until the handler has returned.
+pub fn set_inline_handlers(on: bool) {
+    INLINE_HANDLERS.with(|c| c.set(on));
 }
 
 /// Turns the application pause points of the documented call patterns on or off (per thread).
@@ -361,7 +368,11 @@ pub async fn server_main_with_state(
                 handlers.borrow_mut().push(o.clone());
                 let n = handlers.borrow().len();
                 drv.borrow_mut().results.push("req".into());
-                spawner.spawn(format!("handler{n}"), server_handler(resolver, o, respond));
+                if INLINE_HANDLERS.with(|c| c.get()) {
+                    server_handler(resolver, o, respond).await;
+                } else {
+                    spawner.spawn(format!("handler{n}"), server_handler(resolver, o, respond));
+                }
             }
             Ok(None) => {
                 drv.borrow_mut().results.push("none".into());
